@@ -362,6 +362,11 @@ func (pl *Plugin) NominateReservation(ctx context.Context, cycleState fwktype.Cy
 	}
 
 	if len(reservationInfos) == 1 && state.hasAffinity {
+		// The matchable index may still list an AllocateOnce reservation that already has an owner
+		// (the status is refreshed later): it must not be nominated again, same as FilterNominateReservation.
+		if rInfo := reservationInfos[0]; rInfo.IsAllocateOnce() && rInfo.GetAllocatedPods() > 0 {
+			return nil, nil
+		}
 		return reservationInfos[0], nil
 	}
 
